@@ -27,6 +27,9 @@ instance : DecidableLT (RQ r) := fun a b => inferInstanceAs (Decidable (a.val < 
 instance : OfNat (RQ r) 0 := ⟨mk 0⟩
 end RQ
 
+/-- `stretchList` at `RQ r`, with rational lists in and out (for examples) -/
+def stretchRounded (r : Rat → Rat) (xs : List Rat) (lo hi : Rat) : List Rat := @stretchList (RQ r) _ _ _ _ _ _ _ xs lo hi
+
 /-- the hypotheses on the rounding: monotone, and `0`, `lo`, `hi` are representable -/
 structure Rounding (r : Rat → Rat) (lo hi : Rat) : Prop where
   mono : ∀ x y, x ≤ y → r x ≤ r y
